@@ -72,7 +72,7 @@ Print Assumptions C10_reduce_balanced.
    run.  (Example: Proofs.EmdSsp.solver_hyps_example.) *)
 Theorem C10_ssp_produces_cert_partial : forall bb cc arcs',
   graph_ok bb cc -> zsum bb = 0 ->
-  ssp (supply_fuel bb) bb (mk_arcs cc) = Some arcs' ->
+  ssp bb (mk_arcs cc) = Some arcs' ->
   map skel arcs' = map skel (mk_arcs cc) /\ nonneg_flow arcs' /\
   forall v, (v < length bb)%nat -> outflow arcs' v = nz bb v.
 Proof. exact solver_returns_flow. Qed.
